@@ -44,7 +44,8 @@ POINTS = {
 }
 REQUIRED_CLAUSES = ["ellipse.identity", "rp==a*rho_cosphi", "rm.equator-pole",
                     "rm.monotone", "linear_velocity==omega*rp",
-                    "height-increment", "set()-history-independent", "distance.symmetric",
+                    "height-increment", "set()-history-independent",
+                    "independent-of-other-instances", "distance.symmetric",
                     "distance.coincident==0", "distance.equator",
                     "distance.meridian", "distance.within-0.6%-of-sphere",
                     "parallax.bounded", "parallax.tends-to-zero",
@@ -132,6 +133,22 @@ def case_identities(mon, a, f, om, lat, h):
             got = repr(ex)
         if got != (c0, s0, ch, sh, rp, rm, lv):
             hist[label] = got
+    # ... and while other Earth objects on other ellipsoids are alive (the
+    # ones above, one more, and the default Earth() that the parallax
+    # functions build internally), the first one still stands on its own
+    try:
+        e3 = Earth(Ellipsoid(6371000.0, 0.005, 8.0e-5))
+        e3.rp(10.0)
+        Earth()
+        again = (e.rho_cosphi(lat, 0.0), e.rho_sinphi(lat, 0.0),
+                 e.rho_cosphi(lat, h), e.rho_sinphi(lat, h), e.rp(lat),
+                 e.rm(lat), e.linear_velocity(lat))
+    except Exception as ex:
+        again = repr(ex)
+    mon.check("independent-of-other-instances",
+              again == (c0, s0, ch, sh, rp, rm, lv),
+              lambda: dict(case, alone=[c0, s0, ch, sh, rp, rm, lv],
+                           with_other_instances=again))
     mon.cls("ellipsoid-changed-with-set()", ident)
     mon.check("set()-history-independent", not hist,
               lambda: dict(case, fresh_object=[c0, s0, ch, sh, rp, rm, lv],
